@@ -1,6 +1,6 @@
 CONSTANTS
   Universe <- FullUniverse
-  MaxLen = 4
+  MaxLen = 3
   AnyOrder = TRUE
   InitMatrix = FALSE
   ScriptUniverse = {}
